@@ -7,7 +7,7 @@ CONSTANTS
   Drops = {TRUE, FALSE}
   Refuses <- Refuses3
   Fallbacks = {TRUE, FALSE}
-  SessReads = {TRUE, FALSE}
+  SessReads = {TRUE}
   Cfgs <- CfgsSome
   Dev_S1_RefusedReconnectRaises = FALSE
   Dev_NoWait = FALSE
